@@ -132,6 +132,19 @@ func WConfig(prop, tier string) *Config {
 		}
 		cfg.Phases = append(cfg.Phases, Phase{Name: "multi-msg-tx-depth2", Roots: []string{"R1"}, Ops: append(append([]string{}, tp...), second...), First: tp, Second: second, Depth: 2, Dev: 4})
 	}
+	// ROLLBACK, THEN A WRITE OF THE SAME RECORD IN THE SAME BLOCK: a transaction whose last message fails (all of it
+	// rolled back) next to a successful transaction of another account that writes the same module-wide record
+	// (commitment totals, vault value), in both orders — whatever survives the rollback outside the store is
+	// persisted by the second write
+	if rw, ok := rollbackThenWrite[prop]; ok {
+		var first []string
+		for _, x := range rw[0] {
+			for _, y := range rw[1] {
+				first = append(first, BlockOf(TxOf(x, "FAIL"), y), BlockOf(y, TxOf(x, "FAIL")))
+			}
+		}
+		cfg.Phases = append(cfg.Phases, Phase{Name: "rollback-then-write-depth2", Roots: []string{"R1"}, Ops: append(append([]string{}, first...), "empty", "gap_1d"), First: first, Second: []string{"empty", "gap_1d"}, Depth: 2, Dev: 4})
+	}
 	if tier != "thorough" {
 		return devOnlyPhase(cfg)
 	}
@@ -440,6 +453,12 @@ func wConfig(prop, tier string) *Config {
 var wideProps = map[string]bool{"C01": true, "C02": true, "C06": true, "C08": true, "C09": true, "C10": true, "C11": true, "C12": true, "C13": true, "C15": true, "C18": true}
 
 var voucherProps = map[string]bool{"C01": true, "C02": true, "C13": true, "C15": true, "C18": true, "C20": true}
+
+var rollbackThenWrite = map[string][2][]string{
+	"C12": {{"commit_eden_lp1", "vest_eden_lp1", "stake_elys_lp1", "uncommit_eden_lp1"}, {"bond_lp2_D", "join_p2_all_t1", "unbond_lp2_half"}},
+	"C06": {{"bond_t1_L", "llp_open_t1_x2_again", "llp_close_half_t1"}, {"bond_lp2_D", "unbond_lp2_half", "llp_open_t2_x5"}},
+	"C02": {{"join_p1_all_t1", "llp_open_t1_x2_again", "llp_close_half_t1"}, {"join_p2_all_lp2", "exit_p1_10pct_lp1", "llp_open_t2_x5"}},
+}
 
 var perpEdgeOps = []string{"perp_bot_liquidate_all_fwd_at_edge_long", "perp_bot_liquidate_all_rev_at_edge_long", "perp_bot_liquidate_all_fwd_at_edge_short", "perp_bot_liquidate_all_rev_at_edge_short"}
 
